@@ -1566,41 +1566,41 @@ pub fn channels() -> Vec<Channel> {
         dch!("dense.subsasgn", e, run_subsasgn, oracle_subsasgn, "DenseStorageMatrix::subsasgn", "Dense.subsasgn / C16.dense_subsasgn_spec"),
         dch!("dense.subsref", e, run_subsref, oracle_subsref, "DenseStorageMatrix::subsref", "Dense.subsref / C16.dense_subsref_spec"),
         dch!("dense.pack_triu", e, run_pack_triu, oracle_pack_triu, "Symmetric<Matrix>::pack_triu", "Dense.packTriu / C16.dense_packTriu_spec"),
-        dch!("dense.type_markers", e, run_type_markers, oracle_type_markers, "MatrixTriangle / MatrixShape ::{as_blas_char, t}", "Dense.typeMarkers / C16.dense_typeMarkers_involution"),
+        dch!("dense.type_markers", e, run_type_markers, oracle_type_markers, "MatrixTriangle / MatrixShape ::{as_blas_char, t}", "Dense.typeMarkers"),
         dch!("dense.hcat", e, run_hcat, oracle_hcat, "BlockConcatenate::hcat for dense::Matrix", "Dense.hcat / C16.dense_hcat_spec"),
         dch!("dense.vcat", e, run_vcat, oracle_vcat, "BlockConcatenate::vcat for dense::Matrix", "Dense.vcat / C16.dense_vcat_spec"),
-        dch!("dense.hvcat", e, run_hvcat, oracle_hvcat, "BlockConcatenate::hvcat for dense::Matrix + hvcat_dim_check", "Dense.hvcat, Dense.hvcatDimCheck / C16.dense_hvcat_error_iff"),
-        dch!("dense.blockdiag", e, run_blockdiag, oracle_blockdiag, "BlockConcatenate::blockdiag for dense::Matrix", "Dense.blockdiag"),
+        dch!("dense.hvcat", e, run_hvcat, oracle_hvcat, "BlockConcatenate::hvcat for dense::Matrix + hvcat_dim_check", "Dense.hvcat, Dense.hvcatDimCheck / C16.dense_hvcat_spec, dense_hvcat_error_iff, dense_hvcatDimCheck_iff"),
+        dch!("dense.blockdiag", e, run_blockdiag, oracle_blockdiag, "BlockConcatenate::blockdiag for dense::Matrix", "Dense.blockdiag / C16.dense_blockdiag_spec, dense_blockdiag_error_iff"),
         dch!("dense.kron", e, run_kron, oracle_kron, "dense::Matrix::kron", "Dense.kron / C16.dense_kron_spec, dense_kron_identity"),
         dch!("dense.col_sums", e, run_col_sums, oracle_col_sums, "MatrixMath::col_sums for dense::Matrix", "Dense.colSums / C16.dense_colSums_spec"),
         dch!("dense.row_sums", e, run_row_sums, oracle_row_sums, "MatrixMath::row_sums for dense::Matrix", "Dense.rowSums / C16.dense_rowSums_spec"),
-        dch!("dense.col_norms", e, run_col_norms, oracle_col_norms, "MatrixMath::col_norms for dense::Matrix", "Dense.colNorms"),
+        dch!("dense.col_norms", e, run_col_norms, oracle_col_norms, "MatrixMath::col_norms for dense::Matrix", "Dense.colNorms / C16.dense_colNorms_spec"),
         dch!("dense.col_norms_no_reset", e, run_col_norms_nr, oracle_col_norms_nr, "MatrixMath::col_norms_no_reset for dense::Matrix", "Dense.colNormsNoReset / C16.dense_colNormsNoReset_spec"),
-        dch!("dense.col_norms_sym", e, run_col_norms_sym, oracle_sym_norms, "MatrixMath::col_norms_sym for dense::Matrix", "Dense.colNormsSym / C16.dense_colNormsSym_no_abs"),
-        dch!("dense.col_norms_sym_no_reset", e, run_col_norms_sym_nr, oracle_sym_norms_nr, "MatrixMath::col_norms_sym_no_reset for dense::Matrix", "Dense.colNormsSymNoReset / C16.dense_colNormsSym_no_abs"),
-        dch!("dense.row_norms", e, run_row_norms, oracle_row_norms, "MatrixMath::row_norms for dense::Matrix", "Dense.rowNorms"),
-        dch!("dense.row_norms_no_reset", e, run_row_norms_nr, oracle_row_norms_nr, "MatrixMath::row_norms_no_reset for dense::Matrix", "Dense.rowNormsNoReset"),
-        dch!("dense.quad_form", e, run_quad_form, oracle_quad_form, "MatrixMath::quad_form for dense::Matrix", "Dense.quadForm"),
+        dch!("dense.col_norms_sym", e, run_col_norms_sym, oracle_sym_norms, "MatrixMath::col_norms_sym for dense::Matrix", "Dense.colNormsSym / C16.dense_colNormsSym_spec, dense_colNormsSym_no_abs"),
+        dch!("dense.col_norms_sym_no_reset", e, run_col_norms_sym_nr, oracle_sym_norms_nr, "MatrixMath::col_norms_sym_no_reset for dense::Matrix", "Dense.colNormsSymNoReset / C16.dense_colNormsSymNoReset_spec"),
+        dch!("dense.row_norms", e, run_row_norms, oracle_row_norms, "MatrixMath::row_norms for dense::Matrix", "Dense.rowNorms / C16.dense_rowNorms_spec"),
+        dch!("dense.row_norms_no_reset", e, run_row_norms_nr, oracle_row_norms_nr, "MatrixMath::row_norms_no_reset for dense::Matrix", "Dense.rowNormsNoReset / C16.dense_rowNormsNoReset_spec"),
+        dch!("dense.quad_form", e, run_quad_form, oracle_quad_form, "MatrixMath::quad_form for dense::Matrix", "Dense.quadForm / C16.dense_quad_form_spec"),
         dch!("dense.scale", e, run_scale, oracle_scale, "MatrixMathMut::scale for dense::Matrix", "Dense.scale / C16.dense_scale_spec"),
         dch!("dense.negate", e, run_negate, oracle_negate, "MatrixMathMut::negate for dense::Matrix", "Dense.negate / C16.dense_scale_spec"),
         dch!("dense.lscale", e, run_lscale, oracle_lscale, "MatrixMathMut::lscale for dense::Matrix", "Dense.lscale / C16.dense_lscale_spec"),
         dch!("dense.rscale", e, run_rscale, oracle_rscale, "MatrixMathMut::rscale for dense::Matrix", "Dense.rscale / C16.dense_rscale_spec"),
         dch!("dense.lrscale", e, run_lrscale, oracle_lrscale, "MatrixMathMut::lrscale for dense::Matrix", "Dense.lrscale / C16.dense_lrscale_spec"),
         dch!("dense.symmetric_part", e, run_symmetric_part, oracle_symmetric_part, "DenseStorageMatrix::symmetric_part", "Dense.symmetricPart / C16.dense_symmetricPart_spec"),
-        dch!("dense.svec_to_mat", e, run_svec_to_mat, oracle_svec_to_mat, "dense::svec_to_mat", "Dense.svecToMat"),
-        dch!("dense.mat_to_svec", e, run_mat_to_svec, oracle_mat_to_svec, "dense::mat_to_svec", "Dense.matToSvec"),
+        dch!("dense.svec_to_mat", e, run_svec_to_mat, oracle_svec_to_mat, "dense::svec_to_mat", "Dense.svecToMat / C16.dense_svec_to_mat_spec"),
+        dch!("dense.mat_to_svec", e, run_mat_to_svec, oracle_mat_to_svec, "dense::mat_to_svec", "Dense.matToSvec / C16.dense_mat_to_svec_spec"),
         dch!("dense.mul", t, run_mul, oracle_mul, "MultiplyGEMM::mul (?gemm)", "Dense.mul / C16.dense_mul_spec, dense_mul_beta_zero"),
         dch!("dense.gemv", t, run_gemv, oracle_gemv, "MultiplyGEMV::gemv (?gemv)", "Dense.gemv / C16.dense_gemv_spec, dense_gemv_empty_unscaled"),
         dch!("dense.symv", t, run_symv, oracle_symv, "MultiplySYMV::symv (?symv)", "Dense.symv / C16.dense_symv_spec"),
         dch!("dense.syrk", t, run_syrk, oracle_syrk, "MultiplySYRK::syrk (?syrk)", "Dense.syrk / C16.dense_syrk_spec"),
         dch!("dense.syr2k", t, run_syr2k, oracle_syr2k, "MultiplySYR2K::syr2k (?syr2k)", "Dense.syr2k / C16.dense_syr2k_spec"),
-        dch!("dense.chol_factor", t, run_chol_factor, oracle_chol_factor, "CholeskyEngine::factor (?potrf result as input)", "Dense.cholFactor / C16.dense_cholFactor_contract, dense_cholFactor_errors"),
-        dch!("dense.chol_solve", t, run_chol_solve, oracle_chol_solve, "CholeskyEngine::solve (?potrs result as input)", "Dense.cholSolve / C16.dense_cholSolve_panics"),
+        dch!("dense.chol_factor", t, run_chol_factor, oracle_chol_factor, "CholeskyEngine::factor (?potrf result as input)", "Dense.cholFactor / C16.dense_cholFactor_contract, dense_cholFactor_dim, dense_cholFactor_empty"),
+        dch!("dense.chol_solve", t, run_chol_solve, oracle_chol_solve, "CholeskyEngine::solve (?potrs result as input)", "Dense.cholSolve / C16.dense_cholSolve_ok, dense_cholSolve_panic_empty, dense_cholSolve_panic_rows"),
         dch!("dense.chol_logdet", e, run_chol_logdet, oracle_chol_logdet, "CholeskyEngine::logdet", "Dense.cholLogdet / C16.dense_cholLogdet_spec"),
-        dch!("dense.eig", t, run_eig, oracle_eig, "EigEngine::{new, eigvals, eigen} (?syevr result as input)", "Dense.eigSyevr / C16.dense_eig_errors"),
-        dch!("dense.svd_factor", t, run_svd_factor, oracle_svd_factor, "SVDEngine::{new, resize, factor} (?gesdd / ?gesvd result as input)", "Dense.svdFactor / C16.dense_svd_errors"),
-        dch!("dense.svd_solve", t, run_svd_solve, oracle_svd_solve, "SVDEngine::solve", "Dense.svdSolve / C16.dense_svdSolve_spec"),
-        dch!("dense.lu", t, run_lu, oracle_lu, "LuSolver::lusolve (?gesv result as input)", "Dense.luSolve / C16.dense_lu_errors"),
+        dch!("dense.eig", t, run_eig, oracle_eig, "EigEngine::{new, eigvals, eigen} (?syevr result as input)", "Dense.eigSyevr / C16.dense_eig_run, dense_eig_dim, dense_eig_empty"),
+        dch!("dense.svd_factor", t, run_svd_factor, oracle_svd_factor, "SVDEngine::{new, resize, factor} (?gesdd / ?gesvd result as input)", "Dense.svdFactor / C16.dense_svd_run, dense_svd_dim, dense_svd_norows, dense_svd_nocols"),
+        dch!("dense.svd_solve", t, run_svd_solve, oracle_svd_solve, "SVDEngine::solve", "Dense.svdSolve / C16.dense_svdSolve_entry, dense_svdSolve_normal_equations"),
+        dch!("dense.lu", t, run_lu, oracle_lu, "LuSolver::lusolve (?gesv result as input)", "Dense.luSolve / C16.dense_lu_run, dense_lu_dim, dense_lu_empty"),
     ]
 }
 
